@@ -6,6 +6,10 @@ Oracle (implementation alone, straight from the property text): one record per i
 id / tally pool / pooled flag recomputed from the export; per contest the smallest positive counted rank; invariance of
 the result under permutation of marks and under swapping the Original/Modified key order; Modified replaces Original."""
 import json
+import random
+import subprocess
+import sys
+import zlib
 import os
 import re
 import shutil
@@ -15,6 +19,27 @@ from . import common as C
 
 IMPORTS = "From SV Require Import Run_DominionCvr.\nOpen Scope Z_scope."
 ANCHORS = [("shangrla/formats/Dominion.py", ["Dominion.read_cvrs", "Dominion.read_cvrs_directory"])]
+
+
+# identifiers: the model works on numbers.  A JSON id whose str() is a plain decimal numeral is that number; any other
+# string ("007", " 7", "T7", unicode digits ...) gets a number derived from the string itself (same in every process).
+RAW = {}
+
+
+def code(v):
+    t = str(v)
+    if re.fullmatch(r"0|[1-9][0-9]*", t):
+        return int(t)
+    k = 10000 + zlib.crc32(t.encode("utf-8")) % 1000000
+    assert RAW.setdefault(k, t) == t
+    return k
+
+
+def raw_of(k):
+    return RAW.get(k, k)
+
+
+WEIRD = ["007", " 7", "7 ", "07", "T7", "\u0667", "\u00e97", "7.0", "1e1", "0x7", "7_0", "Seven"]
 
 
 def DOM():
@@ -56,7 +81,16 @@ def gen_marks(rng, malformed=False):
 
 
 def gen_contests(rng, ids, malformed=False):
-    return [{"id": i, "marks": gen_marks(rng, malformed)} for i in ids]
+    out = []
+    for i in ids:
+        marks = gen_marks(rng, malformed)
+        if rng.random() < 0.04:                 # candidate ids that are strings, some not plain numerals
+            ren = {}
+            marks = [(ren.setdefault(c, code(rng.choice(WEIRD)) if rng.random() < 0.5 else c), r, iv) for (c, r, iv) in marks]
+            if len(set(ren.values())) < len(ren):
+                marks = [(c, r, iv) for (c, r, iv) in marks]          # two candidates fell on one id: still a legal export
+        out.append({"id": i, "marks": marks})
+    return out
 
 
 def gen_body(rng, ids, layout, malformed=False, dup_contest=False):
@@ -82,6 +116,42 @@ def gen_body(rng, ids, layout, malformed=False, dup_contest=False):
     return b
 
 
+def edit_marks(rng, marks):
+    """a copy of the marks with one or two small edits: IsVote flipped, a rank changed, a mark dropped, added or moved"""
+    ms = list(marks)
+    for _ in range(rng.choice([1, 1, 2])):
+        k = rng.choice(["flip", "flip", "rank", "drop", "add", "move", "same"])
+        if k == "flip" and ms:
+            j = rng.randrange(len(ms))
+            ms[j] = (ms[j][0], ms[j][1], not ms[j][2])
+        elif k == "rank" and ms:
+            j = rng.randrange(len(ms))
+            ms[j] = (ms[j][0], rng.choice([0, 1, 2, 3, 4]), ms[j][2])
+        elif k == "drop" and ms:
+            ms.pop(rng.randrange(len(ms)))
+        elif k == "add":
+            ms.insert(rng.randint(0, len(ms)), (rng.choice([m[0] for m in ms] or [1]), rng.choice([1, 2, 3]), rng.random() < 0.6))
+        elif k == "move" and len(ms) > 1:
+            ms.insert(rng.randrange(len(ms)), ms.pop(rng.randrange(len(ms))))
+    return ms
+
+
+def near_copy(rng, s0):
+    """another card with (almost) the same selections as an earlier one in the file"""
+    s = json.loads(json.dumps(s0))
+    for k in ("Original", "Modified"):
+        if s[k] is not None:
+            for lst in s[k]["cards"] + [s[k]["flat"]]:
+                for cn in lst:
+                    cn["marks"] = [tuple(m) for m in cn["marks"]]
+                    if rng.random() < 0.6:
+                        cn["marks"] = edit_marks(rng, cn["marks"])
+    if s["rec"] is not None and s["rec"] < 10000:
+        s["rec"] += rng.randint(1, 3)
+    s["group"] = rng.choice([s["group"], s["group"], 1, 2, 3])
+    return s
+
+
 MASKS_OK = ["D:\\NAS\\GENERAL\\Results\\Tabulator{t:02d}\\Batch{b:03d}\\Images\\{t:05d}_{b:05d}_{n:06d}*.*",
             "{t:05d}_{b:05d}_{n}.tif", "x\\99999_00000_{n:03d}_2.png", "img_{t:05d}_{b:05d}_{n:06d} and 00001_00002_000999"]
 MASKS_NO = ["", "D:\\Images\\0001_0002_000013.tif", "no digits here", "12345-12345-77"]
@@ -91,13 +161,19 @@ def gen_session(rng, layout, malformed=False):
     s = {"group": rng.choice([1, 1, 2, 2, 3, 4]), "tab": rng.choice([1, 2, 3, 10, 105, 0]),
          "batch": rng.choice([1, 2, 5, 17, 230, 0])}
     s["tab_str"] = rng.random() < 0.1
+    if rng.random() < 0.06:                     # tabulator / batch identifiers with leading zeros, spaces, letters, unicode
+        s["tab"] = code(rng.choice(WEIRD))
+    if rng.random() < 0.06:
+        s["batch"] = code(rng.choice(WEIRD))
     kind = rng.choice(["num", "num", "num", "x_ok", "x_ok", "x_no"])
     s["rec"] = rng.choice([1, 2, 13, 119, 4000, 0]) if kind == "num" else None
+    if kind == "num" and rng.random() < 0.06:
+        s["rec"] = code(rng.choice(["0013", "13 ", " 13", "x", "XX", "13a"]))
     s["rec_str"] = kind == "num" and rng.random() < 0.1
     if kind == "x_ok" or (kind == "num" and rng.random() < 0.6):
         n = rng.choice([1, 7, 13, 119, 250, 99999, 0])
         s["mask_num"] = n
-        s["mask"] = rng.choice(MASKS_OK).format(t=s["tab"], b=s["batch"], n=n)
+        s["mask"] = rng.choice(MASKS_OK).format(t=s["tab"] % 100000, b=s["batch"] % 100000, n=n)
     elif kind == "x_no" or rng.random() < 0.5:
         s["mask_num"] = None
         s["mask"] = rng.choice(MASKS_NO)
@@ -117,17 +193,26 @@ def gen_session(rng, layout, malformed=False):
         if shape == "mod_only" and not mids:
             mids = rng.sample(pool, 1)
         s["Modified"] = gen_body(rng, mids, lay(), malformed, dup_contest=malformed)
+        if s["Original"] is not None and rng.random() < 0.5:
+            # adjudication as it really happens: the Modified contest is the Original one with a small edit
+            orig = {cn["id"]: cn for lst in s["Original"]["cards"] + [s["Original"]["flat"]] for cn in lst}
+            for lst in s["Modified"]["cards"] + [s["Modified"]["flat"]]:
+                for cn in lst:
+                    if cn["id"] in orig:
+                        cn["marks"] = edit_marks(rng, orig[cn["id"]]["marks"])
     else:
         s["Modified"] = None
     s["mod_first"] = rng.random() < 0.5
     return s
 
 
-def body_json(rng_noise, b, is_current):
+def body_json(rep_, b, is_current):
+    fl = bool(rep_ and rep_.get("float_ranks"))
+
     def con(cn):
-        return {"Id": cn["id"], "ManifestationId": 1000 + cn["id"], "Undervotes": 0, "Overvotes": 0, "OutstackConditionIds": [],
-                "Marks": [{"CandidateId": c, "ManifestationId": 5000 + c, "PartyId": 1, "Rank": r, "MarkDensity": 80,
-                           "IsAmbiguous": False, "IsVote": iv, "OutstackConditionIds": []} for (c, r, iv) in cn["marks"]]}
+        return {"Id": raw_of(cn["id"]), "ManifestationId": 1000 + cn["id"], "Undervotes": 0, "Overvotes": 0, "OutstackConditionIds": [],
+                "Marks": [{"CandidateId": raw_of(c), "ManifestationId": 5000 + c, "PartyId": 1, "Rank": (float(r) if fl and r >= 0 else r),
+                           "MarkDensity": 80, "IsAmbiguous": False, "IsVote": iv, "OutstackConditionIds": []} for (c, r, iv) in cn["marks"]]}
     d = {"PrecinctPortionId": 23, "BallotTypeId": 3, "IsCurrent": is_current}
     if b["layout"] in ("cards", "both"):
         d["Cards"] = [{"Id": 100 + i, "KeyInId": 100 + i, "PaperIndex": i, "Contests": [con(c) for c in cd], "OutstackConditionIds": []}
@@ -137,10 +222,31 @@ def body_json(rng_noise, b, is_current):
     return d
 
 
-def session_json(s, mod_first=None):
+def reshape(x, r):
+    """the same JSON value with the keys of every object in another order and unknown keys added at every level"""
+    if isinstance(x, list):
+        return [reshape(v, r) for v in x]
+    if not isinstance(x, dict):
+        return x
+    items = [(k, reshape(v, r)) for k, v in x.items()]
+    if r.random() < 0.5:
+        items.append((r.choice(["Extra", "zzUnknown", "_meta", "Contest", "Mark", "original", "Sessions2"]),
+                      r.choice([None, 0, "x", [], {"Original": 1}, [{"Marks": []}]])))
+    r.shuffle(items)
+    ks = [k for k, _ in items]
+    if "Original" in ks and "Modified" in ks:          # the relative order of these two is part of the case: keep it
+        i, j = ks.index("Original"), ks.index("Modified")
+        want_mod_first = list(x.keys()).index("Modified") < list(x.keys()).index("Original")
+        if (j < i) != want_mod_first:
+            items[i], items[j] = items[j], items[i]
+    return dict(items)
+
+
+def session_json(s, mod_first=None, rep_=None):
     mod_first = s["mod_first"] if mod_first is None else mod_first
-    d = {"TabulatorId": str(s["tab"]) if s["tab_str"] else s["tab"], "BatchId": s["batch"],
-         "RecordId": ("X" if s["rec"] is None else (str(s["rec"]) if s["rec_str"] else s["rec"])),
+    tab, rec = raw_of(s["tab"]), (None if s["rec"] is None else raw_of(s["rec"]))
+    d = {"TabulatorId": str(tab) if s["tab_str"] else tab, "BatchId": raw_of(s["batch"]),
+         "RecordId": ("X" if rec is None else (str(rec) if s["rec_str"] else rec)),
          "CountingGroupId": s["group"]}
     if s["mask"] is not None:
         d["ImageMask"] = s["mask"]
@@ -148,13 +254,16 @@ def session_json(s, mod_first=None):
     keys = ["Modified", "Original"] if mod_first else ["Original", "Modified"]
     for i, k in enumerate(keys):
         if s[k] is not None:
-            d[k] = body_json(None, s[k], is_current=(k == "Modified" or s["Modified"] is None))
+            d[k] = body_json(rep_, s[k], is_current=(k == "Modified" or s["Modified"] is None))
         if i == 0:
             d["VotingSessionIdentifier"] = ""
+    if rep_ and rep_.get("reshape") is not None:
+        d = reshape(d, random.Random(rep_["reshape"] + len(d.get("ImageMask") or "")))
     return d
 
 
-GROUP_SETS = [[], [], [1], [2], [1, 2], [3], [2, 4], [9]]
+GROUP_SETS = [[], [], [1], [2], [1, 2], [3], [2, 4], [9], [1, 2, 3, 4], [2, 3]]
+COLLS = ["list", "tuple", "set", "frozenset", "range", "ndarray", "np_ints", "none_if_empty"]
 
 
 def gen_case(rng, i, quick):
@@ -165,19 +274,23 @@ def gen_case(rng, i, quick):
     files = []
     for _ in range(nfiles):
         ns = rng.choice([0, 1, 1, 2, 2, 3, 4, 5, 6]) if rng.random() < 0.9 else rng.randint(0, 6)
-        files.append([gen_session(rng, layout, malformed) for _ in range(ns)])
+        ss = []
+        for _ in range(ns):
+            ss.append(near_copy(rng, rng.choice(ss)) if ss and rng.random() < 0.3 else gen_session(rng, layout, malformed))
+        files.append(ss)
     # all 4 x include x pool settings are cycled deterministically so every combination occurs
-    o = {"use_current": bool(i & 1), "enforce_rules": bool(i & 2), "include_groups": list(GROUP_SETS[(i >> 2) % 8]),
+    o = {"use_current": bool(i & 1), "enforce_rules": bool(i & 2), "include_groups": list(GROUP_SETS[(i >> 2) % len(GROUP_SETS)]),
          "pool_groups": list(rng.choice(GROUP_SETS))}
     o["defaults"] = rng.random() < 0.08     # call with defaults only (use_current=True, enforce=True, [], [])
     if o["defaults"]:
         o.update(use_current=True, enforce_rules=True, include_groups=[], pool_groups=[])
-    o["coll"] = rng.choice(["list", "tuple", "set"])
-    o["twice"] = (not o["defaults"]) and rng.random() < 0.12
+    o["coll"] = rng.choice(COLLS)
+    o["twice"] = (not o["defaults"]) and rng.random() < 0.15
+    rep_ = {"float_ranks": rng.random() < 0.1, "reshape": rng.randrange(10 ** 6) if rng.random() < 0.35 else None}
     names = rng.sample(["CvrExport_0.json", "CvrExport_1.json", "CvrExport_10.json", "CvrExport_2.json", "CvrExport_A.json",
                         "CvrExport_b.json"], nfiles)
     return {"opts": o, "files": files, "mode": mode, "names": sorted(names), "malformed": malformed, "layout": layout,
-            "write_order": rng.sample(range(nfiles), nfiles)}
+            "write_order": rng.sample(range(nfiles), nfiles), "rep": rep_}
 
 
 def exhaustive_cases():
@@ -205,25 +318,26 @@ POOL_RE = re.compile(r"(\d+)-(\d+)")
 
 def canon_record(r):
     """CVR object -> ((tab,batch,rec|None), (tab,batch), pool, {cid:{cand:rank}}); anything malformed -> sentinel values"""
-    m = ID_RE.fullmatch(r.id) if isinstance(r.id, str) else None
-    rid = (int(m.group(1)), int(m.group(2)), None if m.group(3) == "X" else int(m.group(3))) if m else (-1, -1, -1)
-    m = POOL_RE.fullmatch(r.tally_pool) if isinstance(r.tally_pool, str) else None
-    tp = (int(m.group(1)), int(m.group(2))) if m else (-1, -1)
-    pool = r.pool if isinstance(r.pool, bool) else None
+    import numpy as np
+    parts = r.id.split("-", 2) if isinstance(r.id, str) else []
+    rid = (code(parts[0]), code(parts[1]), None if parts[2] == "X" else code(parts[2])) if len(parts) == 3 else (-1, -1, -1)
+    parts = r.tally_pool.split("-") if isinstance(r.tally_pool, str) else []
+    tp = (code(parts[0]), code(parts[1])) if len(parts) == 2 else (-1, -1)
+    pool = bool(r.pool) if isinstance(r.pool, (bool, np.bool_)) else None
     votes = {}
     ok = isinstance(r.votes, dict)
     if ok:
         for k, d in r.votes.items():
-            if not (isinstance(k, str) and re.fullmatch(r"-?\d+", k) and isinstance(d, dict)):
+            if not (isinstance(k, str) and isinstance(d, dict)):
                 ok = False
                 break
             cv = {}
             for c, v in d.items():
-                if not (isinstance(c, str) and re.fullmatch(r"-?\d+", c) and isinstance(v, int) and not isinstance(v, bool)):
+                if not (isinstance(c, str) and isinstance(v, (int, float)) and not isinstance(v, bool) and v == int(v)):
                     ok = False
                     break
-                cv[int(c)] = v
-            votes[int(k)] = cv
+                cv[code(c)] = int(v)             # 1.0 recorded for a rank written as 1.0 is the same value
+            votes[code(k)] = cv
     if not ok:
         votes = {-999: {}}
     return {"id": rid, "tally_pool": tp, "pool": pool, "votes": votes,
@@ -231,8 +345,28 @@ def canon_record(r):
 
 
 def coll(o, key):
-    v = o[key]
-    return v if o["coll"] == "list" else tuple(v) if o["coll"] == "tuple" else set(v)
+    """the option in one of the representations a caller may legitimately use (Collection / enumerable of group ids)"""
+    import numpy as np
+    v, kind = list(o[key]), o["coll"]
+    if kind == "tuple":
+        return tuple(v)
+    if kind == "set":
+        return set(v)
+    if kind == "frozenset":
+        return frozenset(v)
+    if kind == "range" and v and v == list(range(v[0], v[-1] + 1)):
+        return range(v[0], v[-1] + 1)
+    if kind == "ndarray" and (key == "pool_groups" or len(v) == 1):
+        return np.array(v, dtype=np.int64)       # as include_groups only with one element: `if array:` is an error otherwise
+    if kind == "np_ints":
+        return [np.int64(g) for g in v]
+    if kind == "none_if_empty" and not v and key == "include_groups":
+        return None
+    return v
+
+
+def same_coll(a, b):
+    return type(a) is type(b) and (a is None or list(a) == list(b))
 
 
 def run_impl(files_json, names, mode, o, root, write_order=None):
@@ -258,11 +392,16 @@ def run_impl(files_json, names, mode, o, root, write_order=None):
             else:
                 recs = D.read_cvrs(os.path.join(d, names[0]), o["use_current"], o["enforce_rules"], inc, pool)
             first = [canon_record(r) for r in recs]
-            if o.get("twice"):          # same export read again with the same option objects: the result must be the same
+            if o.get("twice"):          # same export read again with the same option objects: the result must be the same,
+                for r in recs:          # whatever the caller did to the first result in between
+                    r.votes.clear()
+                    r.votes["junk"] = {"1": 99}
+                    r.id, r.tally_pool, r.pool = "zz", "zz", not r.pool
+                del recs[:]
                 again = D.read_cvrs_directory(d, o["use_current"], o["enforce_rules"], inc, pool) if mode == "dir" else \
                     D.read_cvrs(os.path.join(d, names[0]), o["use_current"], o["enforce_rules"], inc, pool)
                 second = [canon_record(r) for r in again]
-                if inc != coll(o, "include_groups") or pool != coll(o, "pool_groups"):
+                if not same_coll(inc, coll(o, "include_groups")) or not same_coll(pool, coll(o, "pool_groups")):
                     return {"exc": "option collections were modified by the call"}
                 return second if second == first else {"exc": "second read of the same export differs from the first"}
             return first
@@ -272,7 +411,7 @@ def run_impl(files_json, names, mode, o, root, write_order=None):
         shutil.rmtree(d, ignore_errors=True)
 
 
-def files_to_json(files, flip=False, perm_rng=None):
+def files_to_json(files, flip=False, perm_rng=None, rep_=None):
     out = []
     for f in files:
         fj = []
@@ -285,7 +424,7 @@ def files_to_json(files, flip=False, perm_rng=None):
                         for lst in s2[k]["cards"] + [s2[k]["flat"]]:
                             for cn in lst:
                                 perm_rng.shuffle(cn["marks"])
-            fj.append(session_json(s2, mod_first=(not s["mod_first"]) if flip else None))
+            fj.append(session_json(s2, mod_first=(not s["mod_first"]) if flip else None, rep_=rep_))
         out.append(fj)
     return out
 
@@ -329,7 +468,7 @@ def case_lit(c):
 
 
 def case_json(c):
-    return {"opts": c["opts"], "mode": c["mode"], "names": c["names"], "export_files": files_to_json(c["files"]),
+    return {"opts": c["opts"], "mode": c["mode"], "names": c["names"], "export_files": files_to_json(c["files"], rep_=c.get("rep")),
             "implementation": c.get("impl_raw")}
 
 
@@ -410,6 +549,37 @@ def strip(impl):
     return impl if isinstance(impl, dict) else [{k: r[k] for k in ("id", "tally_pool", "pool", "votes")} for r in impl]
 
 
+def probe_representations(root):
+    """recorded, not judged: how the code treats option values outside the checked set (see the report)"""
+    import numpy as np
+    s = {"group": 2, "tab": 1, "tab_str": False, "batch": 1, "rec": 1, "rec_str": False, "mask": None, "mask_num": None,
+         "Original": {"layout": "flat", "cards": [], "flat": [{"id": 1, "marks": [(5, 1, True)]}]}, "Modified": None, "mod_first": False}
+    out = {}
+    for name, kw in (("include_groups=np.array([1,2])", {"include_groups": np.array([1, 2])}),
+                     ("include_groups=np.array([])", {"include_groups": np.array([])}), ("pool_groups=None", {"pool_groups": None})):
+        d = tempfile.mkdtemp(prefix="c19p_", dir=root)
+        try:
+            pth = os.path.join(d, "CvrExport_0.json")
+            with open(pth, "w") as fh:
+                json.dump({"Sessions": [session_json(s)]}, fh)
+            try:
+                out["probe " + name] = "%d record(s)" % len(DOM().read_cvrs(pth, **kw))
+            except Exception as e:  # noqa
+                out["probe " + name] = f"raises {type(e).__name__}"
+        finally:
+            shutil.rmtree(d, ignore_errors=True)
+    return out
+
+
+if __name__ == "__main__":          # fresh-process helper: read the jobs, print the canonical results as one JSON line
+    sys.path.insert(0, C.REPO)
+    jobs_ = json.load(open(sys.argv[1]))
+    root_ = "/dev/shm" if os.path.isdir("/dev/shm") else None
+    print(json.dumps([json.loads(json.dumps(strip(run_impl(j["files_json"], j["names"], j["mode"], j["opts"], root_, j["write_order"])),
+                                            default=str)) for j in jobs_]))
+    sys.exit(0)
+
+
 # ------------------------------------------------------------------ entry point
 def run(ctx, res):
     rng = ctx.rng
@@ -419,10 +589,11 @@ def run(ctx, res):
     stats = {"sessions": 0, "records": 0, "mod_first_both": 0, "orig_first_both": 0, "obfuscated": 0, "dup_cand_contests": 0,
              "layouts": {}, "opts": {}, "exceptions": 0, "metamorphic_runs": 0}
     pre = exhaustive_cases()
+    ring = []
     for i in range(-len(pre), n):
         c = pre[i + len(pre)] if i < 0 else gen_case(rng, i, ctx.quick)
         o = c["opts"]
-        impl = run_impl(files_to_json(c["files"]), c["names"], c["mode"], o, root, c["write_order"])
+        impl = run_impl(files_to_json(c["files"], rep_=c.get("rep")), c["names"], c["mode"], o, root, c["write_order"])
         c["impl_raw"] = impl
         c["impl"] = SENTINEL if isinstance(impl, dict) else impl
         cases.append(c)
@@ -451,7 +622,19 @@ def run(ctx, res):
                                     stats["dup_cand_contests"] += 1
                                     nontriv = True
         if nontriv:
-            res.nontrivial.add(json.dumps([c["opts"], files_to_json(c["files"])], sort_keys=True, default=str))
+            res.nontrivial.add(json.dumps([c["opts"], files_to_json(c["files"], rep_=c.get("rep"))], sort_keys=True, default=str))
+        # ---- an export read earlier is read again after other exports / directories went through both entry points
+        if ring and rng.random() < 0.12:
+            c0 = rng.choice(ring)
+            stats["revisits"] = stats.get("revisits", 0) + 1
+            res.oracle_runs += 1
+            again = run_impl(files_to_json(c0["files"], rep_=c0.get("rep")), c0["names"], c0["mode"], c0["opts"], root, c0["write_order"])
+            if strip(again) != strip(c0["impl_raw"]):
+                res.oracle_violations.append({"what": "the same export gives a different result when read again after other exports",
+                                              "input": case_json(c0), "observed": {"second_result": C.jsonable(strip(again))},
+                                              "signature": "C19:revisit"})
+        if not c["malformed"] and not isinstance(impl, dict):
+            ring = (ring + [c])[-6:]
         # ---- oracle: the property on the implementation's output
         if not c["malformed"]:
             res.oracle_runs += 1
@@ -461,22 +644,48 @@ def run(ctx, res):
             if i % 2 == 0 and not isinstance(impl, dict):
                 stats["metamorphic_runs"] += 2
                 res.oracle_runs += 2
-                alt = run_impl(files_to_json(c["files"], perm_rng=rng), c["names"], c["mode"], o, root, c["write_order"])
+                alt = run_impl(files_to_json(c["files"], perm_rng=rng, rep_=c.get("rep")), c["names"], c["mode"], o, root, c["write_order"])
                 if strip(alt) != strip(impl):
                     res.oracle_violations.append({"what": "result changes when the marks of a contest are permuted", "input": case_json(c),
                                                   "observed": {"permuted_result": C.jsonable(strip(alt))}, "signature": "C19:mark-order"})
-                alt = run_impl(files_to_json(c["files"], flip=True), c["names"], c["mode"], o, root, c["write_order"])
+                alt = run_impl(files_to_json(c["files"], flip=True, rep_=c.get("rep")), c["names"], c["mode"], o, root, c["write_order"])
                 if strip(alt) != strip(impl):
                     res.oracle_violations.append({"what": "result changes when Original/Modified appear in the other key order",
                                                   "input": case_json(c), "observed": {"flipped_result": C.jsonable(strip(alt))},
                                                   "signature": "C19:key-order"})
+    # ---- a sample of the cases re-read in a FRESH process (reverse order): in-process history must not matter
+    pick = [c for c in cases if not isinstance(c["impl_raw"], dict) and not c["opts"].get("twice")]
+    pick = rng.sample(pick, min(len(pick), ctx.n(40, 200)))[::-1]
+    if pick:
+        jobs = [{"files_json": files_to_json(c["files"], rep_=c.get("rep")), "names": c["names"], "mode": c["mode"], "opts": c["opts"],
+                 "write_order": c["write_order"]} for c in pick]
+        fd, jp = tempfile.mkstemp(prefix="c19_jobs_", suffix=".json", dir=root)
+        with os.fdopen(fd, "w") as fh:
+            json.dump(jobs, fh)
+        try:
+            pr = subprocess.run([sys.executable, "-m", "harness.c19", jp], stdout=subprocess.PIPE, stderr=subprocess.PIPE, text=True,
+                                timeout=300, cwd=C.VERIF)
+            fresh = json.loads(pr.stdout.strip().splitlines()[-1]) if pr.returncode == 0 and pr.stdout.strip() else None
+        except Exception:  # noqa
+            fresh = None
+        finally:
+            os.unlink(jp)
+        stats["fresh_process_cases"] = len(pick) if fresh is not None else "fresh process failed"
+        if fresh is None:
+            raise RuntimeError("fresh-process run failed: " + (pr.stderr[-500:] if "pr" in dir() else ""))
+        for c, fr in zip(pick, fresh):
+            res.oracle_runs += 1
+            if json.loads(json.dumps(strip(c["impl_raw"]), default=str)) != fr:
+                res.oracle_violations.append({"what": "result in this process differs from the result of a fresh process for the same export",
+                                              "input": case_json(c), "observed": {"fresh_process_result": fr}, "signature": "C19:fresh"})
+    stats.update(probe_representations(root))
     cr = C.run_corr(ctx.pid, "dom", IMPORTS, "dom_case", cases, case_lit, "agree_dom", shard=60, show="show_dom")
     res.corr.append(("Dominion.read_cvrs / read_cvrs_directory vs DominionCvr.read_cvrs_directory", cr, case_json))
     res.evaluations += len(cases)
     res.rule = ("all sequences of <= 3 marks of one candidate over rank {0,1,2} x IsVote, enforced and not; then generated exports: 0-6 sessions per file, 1-3 files (directory mode with a non-matching file), both layouts with/without "
                 "'Cards' (and both keys present), several cards/contests, shuffled/sorted marks with duplicate candidates, rank 0, IsVote "
-                "mixes, Original/Modified in both key orders with Modified covering a subset, obfuscated record ids with matching / "
-                "non-matching image masks, all 16 option patterns cycled, list/tuple/set option collections, defaults; 8% malformed stream "
+                "mixes, Original/Modified in both key orders with Modified covering a subset and often a small edit of the Original contest (IsVote flipped, rank changed, mark dropped/added/moved), sessions that are near copies of earlier ones in the file, obfuscated record ids with matching / "
+                "non-matching image masks, all 16 option patterns cycled, option collections as list/tuple/set/frozenset/range/ndarray/np.int64 items/None, defaults; 35% of the exports with keys in another order and unknown keys at every level, ranks written as 1.0, tabulator/batch/record/candidate ids with leading zeros, spaces, letters, unicode; exports re-read after others, after the caller altered the first result, and in a fresh process; 8% malformed stream "
                 "(negative ranks, contest id repeated in a block) for correspondence only; non-trivial = has a contest with a repeated "
                 "candidate or a session with both Original and Modified, distinct by (options, export)")
     res.samples = [case_json(c) for c in cases[:3]]
